@@ -114,7 +114,7 @@ def rules(ctx: Ctx) -> None:
         v = rets[0].value
         if isinstance(v, ast.ListComp) and len(v.generators) == 1:
             g = v.generators[0]
-            ok_rep = is_self_attr(g.iter, stmt_attr) and not g.ifs and (u(v.elt) == u(g.target) or (isinstance(v.elt, ast.Call) and len(v.elt.args) == 1 and u(v.elt.args[0]) == u(g.target) and "trim_comment" in u(v.elt.func)))
+            ok_rep = is_self_attr(g.iter, stmt_attr) and not g.ifs and (u(v.elt) == u(g.target) or (common.strips_comments(prog, rep, v.elt) and any(isinstance(x, ast.Name) and x.id == u(g.target) for x in ast.walk(v.elt))))
         elif is_self_attr(v, stmt_attr) or (isinstance(v, ast.Call) and u(v.func) == "list" and is_self_attr(v.args[0], stmt_attr)):
             ok_rep = True
     ctx.ob("R05.1", "reported-statements-are-the-analysed-list", ok_rep, rep.loc(), "statements() maps the statement list one-to-one (comment trimming only), without filter or reordering")
